@@ -2508,4 +2508,58 @@ theorem all_sound (hI : Ideal A) (t : Tree H) (n : Nat) (hwf : WF t n) (kvs : Li
         exact lookup_agree hI _ t n k _ hwf hk hroot (embed_build_lookup n kvs k hkl hk)
       · cases h
 
+theorem NZ_mkEdge {p : Path} {c : Tree H} (hc : c.NZ A) : (mkEdge p c).NZ A := by
+  cases p with
+  | nil => simpa [mkEdge] using hc
+  | cons x xs =>
+    cases c with
+    | leaf v => simpa [mkEdge, Tree.NZ] using hc
+    | bin l r => simpa [mkEdge, Tree.NZ] using hc
+    | edge q d => simpa [mkEdge, Tree.NZ] using hc
+
+theorem keysUnder_vals {b : Bool} {kvs : List (Path × H)} (hv : ∀ kv ∈ kvs, kv.2 ≠ A.zero) :
+    ∀ kv ∈ keysUnder b kvs, kv.2 ≠ A.zero := by
+  intro kv hkv
+  simp only [keysUnder, List.mem_filterMap] at hkv
+  obtain ⟨kv0, hm, hs⟩ := hkv
+  cases hkey : kv0.1 with
+  | nil => simp [hkey] at hs
+  | cons x t =>
+    simp only [hkey] at hs
+    split at hs
+    · cases hs; exact hv kv0 hm
+    · cases hs
+
+theorem build_nz : ∀ (h : Nat) (kvs : List (Path × H)) (t : Tree H),
+    (∀ kv ∈ kvs, kv.2 ≠ A.zero) → build h kvs = some t → t.NZ A := by
+  intro h
+  induction h with
+  | zero =>
+    intro kvs t hv ht
+    simp only [build] at ht
+    cases hl : kvs.getLast? with
+    | none => simp [hl] at ht
+    | some kv =>
+      obtain ⟨k, v⟩ := kv
+      simp only [hl, Option.some.injEq] at ht
+      subst ht
+      exact hv _ (List.mem_of_getLast? hl)
+  | succ h ih =>
+    intro kvs t hv ht
+    cases kvs with
+    | nil => simp [build] at ht
+    | cons kv rest =>
+      simp only [build] at ht
+      split at ht
+      · cases ht
+      · rename_i a ha _
+        cases ht
+        exact NZ_mkEdge (ih _ _ (keysUnder_vals hv) ha)
+      · rename_i b _ hb
+        cases ht
+        exact NZ_mkEdge (ih _ _ (keysUnder_vals hv) hb)
+      · rename_i a b ha hb
+        cases ht
+        exact ⟨ih _ _ (keysUnder_vals hv) ha, ih _ _ (keysUnder_vals hv) hb⟩
+
 end Juno.C10
